@@ -37,11 +37,16 @@ CANDIDATES = [
 def run(ctx):
     quick = ctx.quick()
     # ---- 1. exhaustive
-    model_check(ctx, SPEC, "MC_RevCache", "MC_RevCache.cfg" if quick else "MC_RevCache_thorough.cfg", timeout=5400)
-    model_check(ctx, SPEC, "MC_RevCache", "MC_RevCache_env.cfg" if quick else "MC_RevCache_env_thorough.cfg", timeout=5400)
-    if not quick:
-        model_check(ctx, SPEC, "MC_RevCache", "MC_RevCache_thorough3.cfg", timeout=5400)
-    ctx.cov["exhaustive"] = True
+    skip_mc = bool(os.environ.get("VERIF_C16_SKIP_MC"))      # development / self-test of the binding only; recorded in the evidence
+    if skip_mc:
+        ctx.notes.append("exhaustive model checking skipped by VERIF_C16_SKIP_MC (binding self-test run)")
+    if not skip_mc:
+        model_check(ctx, SPEC, "MC_RevCache", "MC_RevCache.cfg" if quick else "MC_RevCache_thorough.cfg", timeout=5400)
+        model_check(ctx, SPEC, "MC_RevCache", "MC_RevCache_env.cfg" if quick else "MC_RevCache_env_thorough.cfg", timeout=5400)
+        if not quick:
+            model_check(ctx, SPEC, "MC_RevCache", "MC_RevCache_thorough3.cfg", timeout=5400)     # three concurrent calls
+            model_check(ctx, SPEC, "MC_RevCache", "MC_RevCache_onecv.cfg", timeout=5400)         # "one CV => one body": only `revive` is left
+        ctx.cov["exhaustive"] = True
 
     # ---- 2. sequential binding
     behs = behaviours(ctx, SPEC, "MC_RevCache", "Beh_RevCache.cfg", timeout=1800)
@@ -55,7 +60,7 @@ def run(ctx):
     write_json(cf, [F8_BEH])
     modes = ["seq"] + [m for _, m, _ in CANDIDATES]
     env = {"VERIF_BEH": bf, "VERIF_BEH_CAND": cf,
-           "VERIF_C16_RUNS": 30 if quick else 400, "VERIF_C16_ROUNDS": 5 if quick else 8, "VERIF_C16_CALLS": 10 if quick else 25, "VERIF_C16_G": 4}
+           "VERIF_C16_RUNS": 30 if quick else 300, "VERIF_C16_ROUNDS": 5 if quick else 6, "VERIF_C16_CALLS": 10 if quick else 20, "VERIF_C16_G": 4}
     if quick:
         traces = _go(ctx, modes + ["conc"], env)
     else:
